@@ -1,0 +1,25 @@
+// apparmor.d - Full set of apparmor profiles
+// SPDX-License-Identifier: GPL-2.0-only
+
+//go:build verif
+
+// Machine-checked contracts for package logs (comment-only; only part of the package
+// under the build tag "verif").
+package logs
+
+// GetApparmorLogs reads every line of its input: when it returns, the scanner has passed
+// all the lines of the reader (it does not stop early on a long line), and nothing panics.
+// scanpos/scanlines are the ghost position and line count of the bufio.Scanner model.
+//@ func GetApparmorLogs
+//@   opt prop=C14
+//@   assigns nothing
+//@   loop 1 invariant 0 <= scanpos(file) && scanpos(file) <= scanlines(file)
+//@   loop 1 decreases scanlines(file) - scanpos(file)
+//@   ensures scanpos(file) == scanlines(file)
+
+// New parses each record on its own: the package variable `quoted` (the quote state of the
+// field splitter) is written before it is read in every iteration.
+//@ func New
+//@   opt prop=C14
+//@   trusted
+//@   opt writebeforeread=quoted
